@@ -10,7 +10,7 @@ func EncodeBytesUint(n int64, size int) ([]byte, error) {
 	if n < 0 {
 		return nil, ErrOutOfRange
 	}
-	if size < 7 && n > int64(1)<<uint(size*8) {
+	if size < 8 && n >= int64(1)<<uint(size*8) {
 		return nil, ErrOutOfRange
 	}
 
